@@ -801,7 +801,14 @@ GaloisFieldDict::gf_edf_shoup(const unsigned &n) const
         factors.insert(temp.begin(), temp.end());
     } else {
         auto b = gf_frobenius_monomial_base();
-        auto H = _gf_trace_map(r, n, b);
+        // trace of r over GF(p): r + r^p + ... + r^(p^(n-1)) modulo *this
+        GaloisFieldDict H = r % (*this);
+        GaloisFieldDict rp = H;
+        for (unsigned i = 1; i < n; ++i) {
+            rp = rp.gf_frobenius_map(*this, b);
+            H += rp;
+            H %= (*this);
+        }
         auto h = gf_pow_mod(H, (mp_get_ui(modulo_) - 1) / 2);
         auto h1 = gf_gcd(h);
         auto h2 = gf_gcd(h - 1_z);
